@@ -16,7 +16,12 @@ var Hook func(op string, addr unsafe.Pointer)
 // After is called after the access with the observed/new value (optional tracing).
 var After func(op string, addr unsafe.Pointer, val int64, ok bool)
 
+// Count is the number of shimmed accesses executed so far (monitors use it to make sure that the code under
+// test is observable at all before they trust "nothing was read" style conclusions).
+var Count uint64
+
 func pre(op string, p unsafe.Pointer) {
+	atomic.AddUint64(&Count, 1)
 	if h := Hook; h != nil {
 		h(op, p)
 	}
